@@ -25,7 +25,9 @@
           resets last_latency_ ([handle_pending_ll_control])
      #19  check_timing_paremeters: REPAIRED (branch fix/C22-connect-timing-ranges); [check_timing] is the repaired code
      #23  transmit_pending_control_pdus: LL_PHY_REQ sent without arming procedure_timeout_ ([transmit_pending_control_pdus])
-     #24  handle_encryption_pdus: LL_START_ENC_RSP of size 1 sets is_encrypted( true ) unconditionally
+     #24  handle_encryption_pdus: LL_START_ENC_RSP of size 1 set is_encrypted( true ) unconditionally: REPAIRED (branch
+          fix/C28-start-enc-rsp-state); the KStartEncRsp / KPauseEnc* branches of [handle_ll_control] and [reset_encryption]
+          are the repaired code
      #25  connection_callbacks: try_push result ignored, 4 entries ([push_event])
      new  handle_received_data: a PDU with LLID 1 (continuation) and non zero length is never removed from the receive
           queue in the MTU 23 configuration: everything behind it is never processed ([handle_received_data])
